@@ -532,8 +532,14 @@ fn run_ops(case: &str) -> (String, String, String) {
                 } else if div == "-" && !still_due.is_empty() {
                     fail = Some(format!("left-pending:{}", still_due.join("+")));
                 }
-                if w.env.exit_status != ExitStatus(e) {
-                    fail = Some("exit-status-not-preserved".into());
+                // `$?` is preserved, except that an error that interrupts an action leaves its own status
+                let errored = runs.last().is_some_and(|r| r.contains(":400"));
+                let want = if errored { 2 } else { e };
+                if w.env.exit_status != ExitStatus(want) {
+                    fail = Some(if errored { "error-status-lost".into() } else { "exit-status-not-preserved".into() });
+                }
+                if errored && div != "int2" {
+                    fail = Some("error-status-lost".into());
                 }
                 format!("runs={};exit={};div={}", runs.join(","), w.env.exit_status.0, div)
             }
@@ -746,6 +752,20 @@ fn run_multi_case(ws: &[&str]) -> (String, String) {
         } else if old + new > if reached_second { deliveries } else { 1 } {
             oracle = format!("FAIL:{name}:ran-{}-times", old + new);
         }
+        // an error that interrupts an action ends the shell with the error's own status (2), unless a
+        // later action exits explicitly
+        if *k == "I" {
+            let hex = format!(":{}", enc_str(&tag.to_string()));
+            if let Some(pos) = trace.iter().position(|l| l.ends_with(&hex)) {
+                let _ = pos;
+                let exit_later = sks.iter().any(|(_, n2, k2)| {
+                    *k2 == "E" && trace.iter().any(|l| l.ends_with(&format!(":{}", enc_str(&(n2.as_raw() + 200).to_string()))))
+                });
+                if !exit_later && o.exit_status != 2 {
+                    oracle = format!("FAIL:{name}:error-status-lost:exit={}", o.exit_status);
+                }
+            }
+        }
         if *k == "N" && (old > 1 || new > second) || *k != "N" && new > 0 {
             oracle = format!("FAIL:{name}:redefinition");
         }
@@ -898,14 +918,11 @@ fn run_tb_case(case: &str) -> (String, String) {
     );
     use yash_env::job::{ProcessResult, ProcessState};
     let pstate = cell.borrow().as_ref().map(|(st, pid)| st.borrow().processes[pid].state());
-    // A process of the virtual system that was terminated by a signal sent from another process keeps
-    // running as a task (without file descriptors): the process state tells, not `stuck`; and a later
-    // fatal signal overwrites the recorded one, so the number is not part of the observation.
-    let end = match (o.stuck, pstate) {
-        (_, Some(ProcessState::Halted(ProcessResult::Signaled { .. }))) => "sig".to_string(),
-        (_, Some(ProcessState::Halted(ProcessResult::Stopped(_)))) => "stop".to_string(),
-        (false, _) => "exit".to_string(),
-        (true, _) => "stuck".to_string(),
+    let end = match pstate {
+        Some(ProcessState::Halted(ProcessResult::Signaled { signal, .. })) => format!("sig{}", signal.as_raw()),
+        Some(ProcessState::Halted(ProcessResult::Stopped(signal))) => format!("stop{}", signal.as_raw()),
+        _ if !o.stuck => "exit".to_string(),
+        _ => "stuck".to_string(),
     };
     let out = o.stdout_str();
     let lines: Vec<String> = out.lines().map(tb_canon).collect();
